@@ -58,7 +58,7 @@ def load_variants():
     except OSError:
         pass
     for path in sorted(glob.glob(os.path.join(VERIF, 'selftest', 'refactors', '*.diff'))):
-        touched = {l[6:].strip() for l in open(path, encoding='utf-8') if l.startswith('+++ b/')}
+        touched = {l[6:].split('\t')[0].strip() for l in open(path, encoding='utf-8') if l.startswith('+++ b/')}
         for prop, files in sorted(anchors.items()):
             if touched & files:
                 res.append({'id': f'refactor-{os.path.basename(path)[:-5]}-{prop}', 'prop': prop, 'kind': 'silent', 'patch': path})
